@@ -923,8 +923,8 @@ func (x *Unit) binop(st *State, op token.Token, a, b Val, rt types.Type, n ast.N
 	case token.LSS, token.LEQ, token.GTR, token.GEQ:
 		sop := map[token.Token]string{token.LSS: "<", token.LEQ: "<=", token.GTR: ">", token.GEQ: ">="}[op]
 		if a.Sort == SStr {
-			lt := x.uf("str.lt", SBool, a.T, b.T)
-			gt := x.uf("str.lt", SBool, b.T, a.T)
+			lt := x.uf("gs.lt", SBool, a.T, b.T)
+			gt := x.uf("gs.lt", SBool, b.T, a.T)
 			switch op {
 			case token.LSS:
 				return Val{lt, types.Typ[types.Bool]}
@@ -939,7 +939,7 @@ func (x *Unit) binop(st *State, op token.Token, a, b Val, rt types.Type, n ast.N
 		return Val{Cmp(sop, a.T, b.T), types.Typ[types.Bool]}
 	case token.ADD:
 		if a.Sort == SStr {
-			return Val{App(SStr, "str.cat", a.T, b.T), rt}
+			return Val{App(SStr, "gs.cat", a.T, b.T), rt}
 		}
 		return Val{Arith("+", a.T, b.T), rt}
 	case token.SUB:
@@ -1040,8 +1040,8 @@ func (x *Unit) evalIndex(st *State, e *ast.IndexExpr, n int) []Val {
 	case *types.Basic: // string
 		s := x.eval(st, e.X)
 		i := x.eval(st, e.Index)
-		x.oblige(st, "index", x.srcOf(e), And(Cmp(">=", i.T, IntLit(0)), Cmp("<", i.T, App(SInt, "str.len", s.T))), e)
-		v := Val{App(SInt, "str.at", s.T, i.T), types.Typ[types.Byte]}
+		x.oblige(st, "index", x.srcOf(e), And(Cmp(">=", i.T, IntLit(0)), Cmp("<", i.T, App(SInt, "gs.len", s.T))), e)
+		v := Val{App(SInt, "gs.at", s.T, i.T), types.Typ[types.Byte]}
 		x.assume(st, And(Cmp(">=", v.T, IntLit(0)), Cmp("<=", v.T, IntLit(255))))
 		return []Val{v}
 	case *types.Pointer:
@@ -1063,14 +1063,14 @@ func (x *Unit) evalSlice(st *State, e *ast.SliceExpr) Val {
 	}
 	switch tt := under(bt).(type) {
 	case *types.Basic: // string
-		ln := App(SInt, "str.len", base.T)
+		ln := App(SInt, "gs.len", base.T)
 		hi = ln
 		if e.High != nil {
 			hi = x.eval(st, e.High).T
 		}
 		x.oblige(st, "slice", x.srcOf(e), And(Cmp("<=", IntLit(0), lo), Cmp("<=", lo, hi), Cmp("<=", hi, ln)), e)
-		r := x.define("substr", App(SStr, "str.sub", base.T, lo, hi))
-		x.fact(Imp(And(Cmp("<=", IntLit(0), lo), Cmp("<=", lo, hi), Cmp("<=", hi, ln)), Eq(App(SInt, "str.len", r), App(SInt, "-", hi, lo))))
+		r := x.define("substr", App(SStr, "gs.sub", base.T, lo, hi))
+		x.fact(Imp(And(Cmp("<=", IntLit(0), lo), Cmp("<=", lo, hi), Cmp("<=", hi, ln)), Eq(App(SInt, "gs.len", r), App(SInt, "-", hi, lo))))
 		x.strSubFacts(r, base.T, lo, hi)
 		return Val{r, rt}
 	case *types.Slice:
